@@ -46,7 +46,12 @@ def st_program(draw, max_points=6, max_edits=30, samplers=True, forks=False, sam
     edits = [e for e in EDIT_OPS if (samplers or e != "sampler") and (forks or e != "fork")]
     # placement phase interleaved with representation changes (as particles are copied / serialised between steps)
     for _ in range(n_place):
-        ops.append([draw(st.sampled_from(("add_root_clone", "add_root_clone", "add_root_clone", "new_clone") if big else PLACE_OPS)), draw(sel), draw(sel), draw(sel)])
+        if big:
+            # nearly all points go into the first top-level clone, so that one clone ends up with > 24 data points
+            kind = draw(st.sampled_from(["add_root_clone"] * 9 + ["new_clone"]))
+            ops.append([kind, 0 if kind == "add_root_clone" else draw(sel), draw(sel), draw(sel)])
+        else:
+            ops.append([draw(st.sampled_from(PLACE_OPS)), draw(sel), draw(sel), draw(sel)])
         if draw(st.integers(0, 3)) == 0:
             ops.append([draw(st.sampled_from(["copy", "dict_roundtrip", "holder_roundtrip", "snapshot", "pickle_roundtrip"] + (["fork"] if forks else []))), draw(sel), 0, 0])
     m = draw(st.integers(0, max_edits))
